@@ -1,8 +1,26 @@
 import Req.Driver.Proto
+import Req.Pool.AltSvcParse
 /-! Driver lanes of C07. -/
 namespace Req.Driver.L.C07
 open Req.Proto
 
-def lanes : List (String × (List String → String)) := []
+/-- `c07altsvc <value>` → `ok|err <proto,host,port,ma;…>` -/
+def laneAltSvc : List String → String
+  | [v] =>
+    match decodeHex v with
+    | some bs =>
+      match Req.AltSvcParse.parse bs with
+      | none => "out-of-fuel"
+      | some (es, err) =>
+        let cls := if err == .eof then "ok" else "err"
+        let items := es.map fun e =>
+          encodeHex e.proto ++ "," ++ encodeHex e.host ++ "," ++ encodeHex e.port ++ "," ++ (if e.hasMa then "1" else "0")
+        cls ++ " " ++ (if items.isEmpty then "-" else ";".intercalate items)
+    | none => "bad-op"
+  | _ => "bad-op"
+
+def lanes : List (String × (List String → String)) := [
+  ("c07altsvc", laneAltSvc)
+]
 
 end Req.Driver.L.C07
